@@ -80,7 +80,21 @@ def check(prop, tier):
         payload = {"property": prop, "rule": v["rule"], "disc": v["disc"], "occurrences": v.get("n", 1),
                    "case": dict(bycase.get(v.get("case"), {}), case=v.get("case")), "events": trace_slice(trace, v.get("case"), 60)}
         verdict.report(v["rule"], v["disc"], payload, detail=f"case={v.get('case')} n={v.get('n', 1)}")
-    cov = {"states": sum(r["distinct"] for r in runs), "transitions": sum(r["generated"] for r in runs),
+    # the binary as shipped, in daemon mode, first run failing: stays up, runs again on SIGHUP, leaves cleanly on SIGTERM
+    import check_agent, agentgen
+    build_harness(["agentrun"]); build_repo_bins()
+    bsc = agentgen.c19_binary_scenarios(prop)
+    awd = workdir(f"{prop}-{tier}-binary")
+    atrace, astats, aviols = check_agent.run_and_validate(prop, tier + "-binary", bsc, awd)
+    byb = {s["case"]: s for s in bsc}
+    for v in aviols:
+        if v["prop"] == "TOOL":
+            raise ToolError(f"{v['rule']} in case {v.get('case')}: the fake router and Junos.tla disagree")
+        if v["prop"] == prop:
+            verdict.report(v["rule"], v["disc"], {"property": prop, "rule": v["rule"], "disc": v["disc"], "scenario": byb.get(v.get("case")),
+                                                  "events": trace_slice(atrace, v.get("case"), 80)}, detail=f"case={v.get('case')} n={v.get('n', 1)}")
+    cov = {"binary_in_daemon_mode": {"scenarios": len(bsc), "runs": astats.get("runs"), "first_run": [s["meta"]["first_run"] for s in bsc]},
+           "states": sum(r["distinct"] for r in runs), "transitions": sum(r["generated"] for r in runs),
            "traces_validated_against_impl": stats.get("cases", 0), "samples": [chosen[0], chosen[-1]],
            "histories_enumerated_by_tlc": len(cases), "histories_run_on_the_real_loop": len(chosen),
            "run_starts_judged": stats.get("starts"), "retry_delays_judged": stats.get("retries"), "signals_raised": stats.get("signals"),
@@ -100,6 +114,16 @@ def check(prop, tier):
 
 def replay(prop, path):
     payload = json.load(open(path))
+    if payload.get("scenario"):
+        import check_agent
+        build_harness(["agentrun"]); build_repo_bins()
+        trace, stats, viols = check_agent.run_and_validate(prop, "replay", [payload["scenario"]], workdir(f"{prop}-replay"))
+        print(open(trace).read()[:20000])
+        verdict = Verdict(prop)
+        for v in viols:
+            if v["prop"] == prop:
+                verdict.report(v["rule"], v["disc"], payload)
+        return verdict.exit_code()
     build_harness(["daemon"])
     wd = workdir(f"{prop}-replay")
     cpath = os.path.join(wd, "cases.ndjson")
